@@ -4,6 +4,7 @@ package main
 
 import (
 	"fmt"
+	"go/constant"
 	"go/token"
 	"go/types"
 
@@ -50,9 +51,61 @@ func runC08(c *Ctx) {
 		}
 		return nil
 	}
+	// release helpers: an unexported one-block method release(k, v) that makes exactly one eviction callback on its
+	// (key, value) parameters, touches nothing else, and RETURNS sizeOf(v) for its caller to subtract
+	// (c.size -= c.release(k, v)).  Its call is the callback for (k, v), and its value is sizeOf(v).
+	type relAcct struct{ ki, vi int }
+	relHelper := map[*ssa.Function]relAcct{}
+	for _, fn := range P.Methods("cache", "Cache") {
+		if fn.Parent() != nil || fn.Object() == nil || fn.Object().Exported() || len(fn.Blocks) != 1 || fn.Signature.Results().Len() != 1 {
+			continue
+		}
+		pidx := func(v ssa.Value) int {
+			for i, p := range fn.Params {
+				if v == ssa.Value(p) {
+					return i
+				}
+			}
+			return -1
+		}
+		ki, vi, nCb, okShape := -1, -1, 0, true
+		var retArg ssa.Value
+		for _, in := range fn.Blocks[0].Instrs {
+			switch x := in.(type) {
+			case *ssa.Call:
+				switch {
+				case isLoad(x.Call.Value, onEvictF) && len(x.Call.Args) == 2:
+					nCb++
+					ki, vi = pidx(x.Call.Args[0]), pidx(x.Call.Args[1])
+				case isLoad(x.Call.Value, sizeOfF) && len(x.Call.Args) == 1:
+				default:
+					okShape = false
+				}
+			case *ssa.Return:
+				if call, ok := x.Results[0].(*ssa.Call); ok && isLoad(call.Call.Value, sizeOfF) && len(call.Call.Args) == 1 {
+					retArg = call.Call.Args[0]
+				} else {
+					okShape = false
+				}
+			case *ssa.Store, *ssa.MapUpdate, *ssa.Defer, *ssa.Go:
+				okShape = false
+			}
+		}
+		if okShape && nCb == 1 && ki > 0 && vi > 0 && retArg != nil && pidx(retArg) == vi {
+			relHelper[origin(fn)] = relAcct{ki, vi}
+		}
+	}
 	isSizeOfCall := func(v ssa.Value) (ssa.Value, bool) {
 		call, ok := v.(*ssa.Call)
-		if !ok || !isLoad(call.Call.Value, sizeOfF) || len(call.Call.Args) != 1 {
+		if !ok {
+			return nil, false
+		}
+		if cal := staticCallee(&call.Call); cal != nil {
+			if ra, isRel := relHelper[origin(cal)]; isRel && ra.vi < len(call.Call.Args) {
+				return call.Call.Args[ra.vi], true
+			}
+		}
+		if !isLoad(call.Call.Value, sizeOfF) || len(call.Call.Args) != 1 {
 			return nil, false
 		}
 		return call.Call.Args[0], true
@@ -460,6 +513,15 @@ func runC08(c *Ctx) {
 								}
 							}
 						}
+						if cal := staticCallee(&x.Call); cal != nil {
+							if ra, ok := relHelper[origin(cal)]; ok && ra.ki < len(x.Call.Args) && ra.vi < len(x.Call.Args) {
+								if sameV(x.Call.Args[ra.ki], d.k) && sameV(x.Call.Args[ra.vi], d.v) {
+									nCb++
+								} else {
+									probs = append(probs, "the release helper "+origin(cal).Name()+" is called with other arguments than the departing (key, value)")
+								}
+							}
+						}
 						if isLoad(x.Call.Value, onEvictF) {
 							if viaHelper[d.call] {
 								probs = append(probs, "a second eviction callback beside the one the helper makes")
@@ -537,8 +599,13 @@ func runC08(c *Ctx) {
 			b := in.Block()
 			switch x := in.(type) {
 			case *ssa.Call:
-				if isLoad(x.Call.Value, onEvictF) && !depBlocks[b] {
+				if _, isRel := relHelper[origin(fn)]; isLoad(x.Call.Value, onEvictF) && !depBlocks[b] && !isRel {
 					c.bad("R-EVICT-PAIR", name+":callback without departure", x.Pos(), "the eviction callback is invoked in a block where nothing leaves the store")
+				}
+				if cal := staticCallee(&x.Call); cal != nil {
+					if _, ok := relHelper[origin(cal)]; ok && !depBlocks[b] {
+						c.bad("R-EVICT-PAIR", name+":release without departure", x.Pos(), "the release helper "+origin(cal).Name()+" (eviction callback + size of the entry) is called in a block where nothing leaves the store")
+					}
 				}
 				if cal := staticCallee(&x.Call); cal != nil {
 					if _, ok := acctHelper[origin(cal)]; ok && !depBlocks[b] {
@@ -807,13 +874,61 @@ func runC08(c *Ctx) {
 	if has := P.Func("cache", "Cache", "Has"); has != nil {
 		c.sawFn(fnName(has))
 		var used []string
-		for _, hf := range withClosures(has) {
-			allInstrs(hf, func(in ssa.Instruction) {
-				if n, _ := invokeName(in); n != "" {
-					used = append(used, n)
+		// store calls Has reaches: its own, and those of helpers of the package it calls — in a helper, a branch on a
+		// boolean parameter is followed only on the side the constant argument selects (find(key, false))
+		var reach func(fn *ssa.Function, known map[ssa.Value]bool, depth int)
+		reach = func(fn *ssa.Function, known map[ssa.Value]bool, depth int) {
+			seen := map[*ssa.BasicBlock]bool{}
+			var walk func(b *ssa.BasicBlock)
+			walk = func(b *ssa.BasicBlock) {
+				if seen[b] {
+					return
 				}
-			})
+				seen[b] = true
+				for _, in := range b.Instrs {
+					if n, _ := invokeName(in); n != "" {
+						used = append(used, n)
+					}
+					if call, ok := in.(ssa.CallInstruction); ok && depth < 2 {
+						if cal := staticCallee(call.Common()); cal != nil && cal.Blocks != nil && cal.Pkg == origin(has).Pkg {
+							k2 := map[ssa.Value]bool{}
+							for i, a := range call.Common().Args {
+								if kc, ok := a.(*ssa.Const); ok && kc.Value != nil && kc.Value.Kind() == constant.Bool && i < len(cal.Params) {
+									k2[cal.Params[i]] = constant.BoolVal(kc.Value)
+								}
+							}
+							reach(cal, k2, depth+1)
+						}
+					}
+					if mc, ok := in.(*ssa.MakeClosure); ok {
+						if cl, ok := mc.Fn.(*ssa.Function); ok {
+							reach(cl, nil, depth)
+						}
+					}
+				}
+				if iff, ok := b.Instrs[len(b.Instrs)-1].(*ssa.If); ok {
+					cond, neg := iff.Cond, false
+					if u, ok := cond.(*ssa.UnOp); ok && u.Op == token.NOT {
+						cond, neg = u.X, true
+					}
+					if v, ok := known[cond]; ok {
+						if v != neg {
+							walk(b.Succs[0])
+						} else {
+							walk(b.Succs[1])
+						}
+						return
+					}
+				}
+				for _, sc := range b.Succs {
+					walk(sc)
+				}
+			}
+			if len(fn.Blocks) > 0 {
+				walk(fn.Blocks[0])
+			}
 		}
+		reach(has, nil, 0)
 		c.judge(len(used) == 1 && used[0] == "Check", "R-CHECK-PURE", "cache.(*Cache).Has:store calls", has.Pos(), "only Store.Check", fmt.Sprintf("Has calls %v on the store (only Check does not count as a use)", used))
 	}
 	roles := resolveLRU(P)
